@@ -277,6 +277,15 @@ func init() {
 		return ch
 	}))
 
+	reg("iface:context.Context.Err", "non-nil exactly when the context's done channel is closed", ret(func(e *Exec, st *State, fr *Frame, site ssa.Instruction, args []Val) Val {
+		declFun("donech", SInt, SIface)
+		ch := App("donech", SInt, e.term(args[0]))
+		e.assume(Gt(ch, IntLit(0)))
+		err := e.freshErr(st, false)
+		e.assume(Eq(Neq(IfTid(err), IntLit(0)), Select(st.heap("G!closedch", ArrSort(SBool)), ch)))
+		return err
+	}))
+
 	// ---- net / tls (A-NET, A-TLS): results opaque here; ghost effects are added by the
 	// spec-language extern contracts in the contract file where a property needs them
 	for _, n := range []string{"net.ParseIP", "net/netip.ParseAddr", "(*net.Resolver).LookupHost", "net.IPv4"} {
